@@ -8,142 +8,416 @@ import (
 	"gonum.org/v1/gonum/spatial/r3"
 )
 
-// genBoxes: r2.Box / r3.Box (the bounds type of the Barnes-Hut trees) on the
-// integer lattice {0,1,2}: construction, Canon, Size, Center, Vertices, Add,
-// Contains and Union against coordinate-wise definitions. Don't-care zone:
-// Contains and Union of boxes with zero volume ("Empty"), whose treatment is
-// not specified beyond Empty itself.
-func genBoxes(g *vlib.G) {
-	g.Case("r2.Box lattice", func(t *vlib.T) {
-		var boxes []r2.Box
-		var n int64
-		for a := 0; a < 81; a++ {
-			x0, y0, x1, y1 := float64(a/27), float64(a/9%3), float64(a/3%3), float64(a%3)
-			b := r2.NewBox(x0, y0, x1, y1)
-			raw := r2.Box{Min: r2.Vec{X: x0, Y: y0}, Max: r2.Vec{X: x1, Y: y1}}
-			lo := r2.Vec{X: min(x0, x1), Y: min(y0, y1)}
-			hi := r2.Vec{X: max(x0, x1), Y: max(y0, y1)}
-			if b.Min != lo || b.Max != hi || raw.Canon() != b {
-				t.Failf("NewBox(%v,%v,%v,%v)=%v Canon=%v want [%v,%v]", x0, y0, x1, y1, b, raw.Canon(), lo, hi)
-				return
-			}
-			if b.Size() != (r2.Vec{X: hi.X - lo.X, Y: hi.Y - lo.Y}) || b.Center() != (r2.Vec{X: (lo.X + hi.X) / 2, Y: (lo.Y + hi.Y) / 2}) {
-				t.Failf("%v Size=%v Center=%v", b, b.Size(), b.Center())
-				return
-			}
-			if e := b.Empty(); e != (lo.X >= hi.X || lo.Y >= hi.Y) {
-				t.Failf("%v Empty=%v", b, e)
-				return
-			}
-			v := b.Vertices()
-			wantV := []r2.Vec{lo, {X: hi.X, Y: lo.Y}, hi, {X: lo.X, Y: hi.Y}}
-			if len(v) != 4 || v[0] != wantV[0] || v[1] != wantV[1] || v[2] != wantV[2] || v[3] != wantV[3] {
-				t.Failf("%v Vertices=%v want %v (CCW from the minimum)", b, v, wantV)
-				return
-			}
-			if s := b.Add(r2.Vec{X: 1, Y: -2}); s.Min != (r2.Vec{X: lo.X + 1, Y: lo.Y - 2}) || s.Max != (r2.Vec{X: hi.X + 1, Y: hi.Y - 2}) {
-				t.Failf("%v Add((1,-2))=%v", b, s)
-				return
-			}
-			if !b.Empty() {
-				for q := 0; q < 49; q++ {
-					p := r2.Vec{X: float64(q/7)/2 - 0.5, Y: float64(q%7)/2 - 0.5}
-					want := lo.X <= p.X && p.X <= hi.X && lo.Y <= p.Y && p.Y <= hi.Y
-					n++
-					if b.Contains(p) != want {
-						t.Failf("%v Contains(%v)=%v want %v", b, p, !want, want)
-						return
-					}
-				}
-				s := b.Scale(r2.Vec{X: 2, Y: -1})
-				c := b.Center()
-				if s.Min != (r2.Vec{X: c.X - (hi.X - lo.X), Y: c.Y}) || s.Max != (r2.Vec{X: c.X + (hi.X - lo.X), Y: c.Y}) {
-					t.Failf("%v Scale((2,-1))=%v (negative factors count as zero, scaling about the centre)", b, s)
-					return
-				}
-				boxes = append(boxes, b)
-			}
-		}
-		for _, a := range boxes {
-			for _, b := range boxes {
-				u := a.Union(b)
-				n++
-				if u.Min != (r2.Vec{X: min(a.Min.X, b.Min.X), Y: min(a.Min.Y, b.Min.Y)}) || u.Max != (r2.Vec{X: max(a.Max.X, b.Max.X), Y: max(a.Max.Y, b.Max.Y)}) {
-					t.Failf("%v Union %v = %v", a, b, u)
-					return
-				}
-			}
-		}
-		t.Count("box_checks", n)
-		t.Outcome("r2")
-		t.Nontrivial()
-	})
-	g.Case("r3.Box lattice", func(t *vlib.T) {
-		var boxes []r3.Box
-		var n int64
-		for a := 0; a < 729; a++ {
-			c := [6]float64{}
-			x := a
-			for i := 5; i >= 0; i-- {
-				c[i] = float64(x % 3)
-				x /= 3
-			}
-			b := r3.NewBox(c[0], c[1], c[2], c[3], c[4], c[5])
-			raw := r3.Box{Min: r3.Vec{X: c[0], Y: c[1], Z: c[2]}, Max: r3.Vec{X: c[3], Y: c[4], Z: c[5]}}
-			lo := r3.Vec{X: min(c[0], c[3]), Y: min(c[1], c[4]), Z: min(c[2], c[5])}
-			hi := r3.Vec{X: max(c[0], c[3]), Y: max(c[1], c[4]), Z: max(c[2], c[5])}
-			if b.Min != lo || b.Max != hi || raw.Canon() != b {
-				t.Failf("NewBox(%v)=%v Canon=%v want [%v,%v]", c, b, raw.Canon(), lo, hi)
-				return
-			}
-			if b.Size() != (r3.Vec{X: hi.X - lo.X, Y: hi.Y - lo.Y, Z: hi.Z - lo.Z}) || b.Center() != (r3.Vec{X: (lo.X + hi.X) / 2, Y: (lo.Y + hi.Y) / 2, Z: (lo.Z + hi.Z) / 2}) {
-				t.Failf("%v Size=%v Center=%v", b, b.Size(), b.Center())
-				return
-			}
-			if e := b.Empty(); e != (lo.X >= hi.X || lo.Y >= hi.Y || lo.Z >= hi.Z) {
-				t.Failf("%v Empty=%v", b, e)
-				return
-			}
-			v := b.Vertices()
-			wantV := []r3.Vec{lo, {X: hi.X, Y: lo.Y, Z: lo.Z}, {X: hi.X, Y: hi.Y, Z: lo.Z}, {X: lo.X, Y: hi.Y, Z: lo.Z},
-				{X: lo.X, Y: lo.Y, Z: hi.Z}, {X: hi.X, Y: lo.Y, Z: hi.Z}, hi, {X: lo.X, Y: hi.Y, Z: hi.Z}}
-			if len(v) != 8 {
-				t.Failf("%v Vertices has %d entries", b, len(v))
-				return
-			}
-			for i := range wantV {
-				if v[i] != wantV[i] {
-					t.Failf("%v Vertices()[%d]=%v want %v", b, i, v[i], wantV[i])
-					return
-				}
-			}
-			if !b.Empty() {
-				for q := 0; q < 343; q++ {
-					p := r3.Vec{X: float64(q/49)/2 - 0.5, Y: float64(q/7%7)/2 - 0.5, Z: float64(q%7)/2 - 0.5}
-					want := lo.X <= p.X && p.X <= hi.X && lo.Y <= p.Y && p.Y <= hi.Y && lo.Z <= p.Z && p.Z <= hi.Z
-					n++
-					if b.Contains(p) != want {
-						t.Failf("%v Contains(%v)=%v want %v", b, p, !want, want)
-						return
-					}
-				}
-				boxes = append(boxes, b)
-			}
-		}
-		for _, a := range boxes {
-			for _, b := range boxes {
-				u := a.Union(b)
-				n++
-				if u.Min != (r3.Vec{X: min(a.Min.X, b.Min.X), Y: min(a.Min.Y, b.Min.Y), Z: min(a.Min.Z, b.Min.Z)}) || u.Max != (r3.Vec{X: max(a.Max.X, b.Max.X), Y: max(a.Max.Y, b.Max.Y), Z: max(a.Max.Z, b.Max.Z)}) {
-					t.Failf("%v Union %v = %v", a, b, u)
-					return
-				}
-			}
-		}
-		t.Count("box_checks", n)
-		t.Outcome("r3")
-		t.Nontrivial()
-	})
+// Box algebra of r2.Box / r3.Box (the bounds type of the Barnes-Hut trees)
+// against coordinate-wise definitions, for EVERY kind of operand in EVERY
+// position: boxes with volume, degenerate boxes (a point, a flat box), inverted
+// boxes (some Min component above its Max) and the zero Box - all literal
+// Box{Min,Max} values over a coordinate alphabet, not only NewBox results.
+//
+// What the documentation fixes, and the oracle used:
+//   - NewBox / Canon: component-wise min/max. Size = Max-Min, Center = (Min+Max)/2,
+//     Add = translation, Vertices = the documented corner order: any box.
+//   - Empty: some Min component >= its Max component: any box.
+//   - Scale: well-formed boxes (Min <= Max, degenerate included): same centre,
+//     size multiplied by max(factor,0). Inverted boxes: don't care (counted).
+//   - Contains: for a box with volume, Min <= v <= Max; for ANY box Contains(v)
+//     implies Min <= v <= Max (nothing outside the bounds, so an inverted box
+//     contains nothing). Whether a zero-volume box contains the points of its
+//     bounds is unspecified (the implementation: only a point box contains its
+//     point) - don't care, counted.
+//   - Union "returns a box enclosing both the receiver and argument": the result
+//     encloses every operand that has volume and lies inside the hull of all
+//     operand corners. For two boxes with volume that is the component-wise
+//     min/max exactly; with one zero-volume operand anything between the
+//     other operand and the hull is accepted (the implementation returns the
+//     other operand unchanged); with two zero-volume operands only the hull bound
+//     applies. The same bounds are applied to Union chains (bounding-box
+//     accumulation acc = acc.Union(next) from the zero Box).
+
+type gbox struct{ min, max vec3 }
+
+type boxAPI struct {
+	name     string
+	dim      int
+	newBox   func(a, b vec3) gbox
+	canon    func(b gbox) gbox
+	size     func(b gbox) vec3
+	center   func(b gbox) vec3
+	empty    func(b gbox) bool
+	vertices func(b gbox) []vec3
+	union    func(a, b gbox) gbox
+	add      func(b gbox, v vec3) gbox
+	scale    func(b gbox, v vec3) gbox
+	contains func(b gbox, v vec3) bool
 }
 
-var _ = fmt.Sprint
+func v2(v vec3) r2.Vec { return r2.Vec{X: v[0], Y: v[1]} }
+func f2(v r2.Vec) vec3 { return vec3{v.X, v.Y, 0} }
+func b2(b gbox) r2.Box { return r2.Box{Min: v2(b.min), Max: v2(b.max)} }
+func g2(b r2.Box) gbox { return gbox{f2(b.Min), f2(b.Max)} }
+func v3(v vec3) r3.Vec { return r3.Vec{X: v[0], Y: v[1], Z: v[2]} }
+func f3(v r3.Vec) vec3 { return vec3{v.X, v.Y, v.Z} }
+func b3(b gbox) r3.Box { return r3.Box{Min: v3(b.min), Max: v3(b.max)} }
+func g3(b r3.Box) gbox { return gbox{f3(b.Min), f3(b.Max)} }
+func (b gbox) s(dim int) string {
+	return fmt.Sprintf("Box{Min:%v Max:%v}", b.min[:dim], b.max[:dim])
+}
+
+func boxAPIs() []boxAPI {
+	return []boxAPI{
+		{
+			name: "r2", dim: 2,
+			newBox: func(a, b vec3) gbox { return g2(r2.NewBox(a[0], a[1], b[0], b[1])) },
+			canon:  func(b gbox) gbox { return g2(b2(b).Canon()) },
+			size:   func(b gbox) vec3 { return f2(b2(b).Size()) },
+			center: func(b gbox) vec3 { return f2(b2(b).Center()) },
+			empty:  func(b gbox) bool { return b2(b).Empty() },
+			vertices: func(b gbox) []vec3 {
+				var out []vec3
+				for _, v := range b2(b).Vertices() {
+					out = append(out, f2(v))
+				}
+				return out
+			},
+			union:    func(a, b gbox) gbox { return g2(b2(a).Union(b2(b))) },
+			add:      func(b gbox, v vec3) gbox { return g2(b2(b).Add(v2(v))) },
+			scale:    func(b gbox, v vec3) gbox { return g2(b2(b).Scale(v2(v))) },
+			contains: func(b gbox, v vec3) bool { return b2(b).Contains(v2(v)) },
+		},
+		{
+			name: "r3", dim: 3,
+			newBox: func(a, b vec3) gbox { return g3(r3.NewBox(a[0], a[1], a[2], b[0], b[1], b[2])) },
+			canon:  func(b gbox) gbox { return g3(b3(b).Canon()) },
+			size:   func(b gbox) vec3 { return f3(b3(b).Size()) },
+			center: func(b gbox) vec3 { return f3(b3(b).Center()) },
+			empty:  func(b gbox) bool { return b3(b).Empty() },
+			vertices: func(b gbox) []vec3 {
+				var out []vec3
+				for _, v := range b3(b).Vertices() {
+					out = append(out, f3(v))
+				}
+				return out
+			},
+			union:    func(a, b gbox) gbox { return g3(b3(a).Union(b3(b))) },
+			add:      func(b gbox, v vec3) gbox { return g3(b3(b).Add(v3(v))) },
+			scale:    func(b gbox, v vec3) gbox { return g3(b3(b).Scale(v3(v))) },
+			contains: func(b gbox, v vec3) bool { return b3(b).Contains(v3(v)) },
+		},
+	}
+}
+
+// rawBoxes: every literal Box{Min,Max} with all coordinates from alpha.
+func rawBoxes(dim int, alpha []float64) []gbox {
+	m := len(alpha)
+	n := ipow(m, 2*dim)
+	out := make([]gbox, 0, n)
+	for i := 0; i < n; i++ {
+		var b gbox
+		x := i
+		for c := dim - 1; c >= 0; c-- {
+			b.max[c] = alpha[x%m]
+			x /= m
+		}
+		for c := dim - 1; c >= 0; c-- {
+			b.min[c] = alpha[x%m]
+			x /= m
+		}
+		out = append(out, b)
+	}
+	return out
+}
+
+const (
+	bkVolume   = iota // Min < Max in every component
+	bkPoint           // Min == Max
+	bkFlat            // Min <= Max, some but not all components equal
+	bkInverted        // some Min component above its Max
+)
+
+func boxKind(b gbox, dim int) int {
+	eq, inv := 0, false
+	for c := 0; c < dim; c++ {
+		if b.min[c] > b.max[c] {
+			inv = true
+		}
+		if b.min[c] == b.max[c] {
+			eq++
+		}
+	}
+	switch {
+	case inv:
+		return bkInverted
+	case eq == dim:
+		return bkPoint
+	case eq > 0:
+		return bkFlat
+	}
+	return bkVolume
+}
+
+var boxKindName = []string{"volume", "point", "flat", "inverted"}
+
+// encloses: outer.Min <= inner.Min and outer.Max >= inner.Max.
+func encloses(outer, inner gbox, dim int) bool {
+	for c := 0; c < dim; c++ {
+		if outer.min[c] > inner.min[c] || outer.max[c] < inner.max[c] {
+			return false
+		}
+	}
+	return true
+}
+
+// cornerHull: the smallest well-formed box holding every corner of the operands.
+func cornerHull(dim int, bs ...gbox) gbox {
+	h := gbox{}
+	for c := 0; c < dim; c++ {
+		h.min[c], h.max[c] = bs[0].min[c], bs[0].min[c]
+		for _, b := range bs {
+			h.min[c] = min(h.min[c], b.min[c], b.max[c])
+			h.max[c] = max(h.max[c], b.min[c], b.max[c])
+		}
+	}
+	return h
+}
+
+type boxStats struct {
+	checks                                int64
+	unionVolVol, unionVolEmpty, unionEE   int64
+	pointContainsSelf, flatContainsInside int64
+	scaleInverted                         int64
+	kinds                                 [4]int64
+}
+
+func (st *boxStats) report(t *vlib.T, name string) {
+	t.Count("box_checks", st.checks)
+	t.Count("box_union_volume_volume", st.unionVolVol)
+	t.Count("box_union_one_zero_volume_operand", st.unionVolEmpty)
+	t.Count("box_union_two_zero_volume_operands", st.unionEE)
+	t.Count("box_dontcare_point_box_contains_its_point", st.pointContainsSelf)
+	t.Count("box_dontcare_flat_box_contains_point_of_its_bounds", st.flatContainsInside)
+	t.Count("box_dontcare_scale_of_inverted_box", st.scaleInverted)
+	for k, n := range st.kinds {
+		t.Count("box_operands_"+boxKindName[k], n)
+	}
+	t.Outcome(name)
+	t.Nontrivial()
+}
+
+// checkUnion applies the Union oracle to one ordered pair.
+func checkUnion(t *vlib.T, api boxAPI, a, b gbox, st *boxStats) bool {
+	dim := api.dim
+	u := api.union(a, b)
+	st.checks++
+	av, bv := boxKind(a, dim) == bkVolume, boxKind(b, dim) == bkVolume
+	hull := cornerHull(dim, a, b)
+	switch {
+	case av && bv:
+		st.unionVolVol++
+		if u != hull {
+			t.Failf("%s: %s.Union(%s) = %s, component-wise min/max is %s", api.name, a.s(dim), b.s(dim), u.s(dim), hull.s(dim))
+			return false
+		}
+	default:
+		if av || bv {
+			st.unionVolEmpty++
+		} else {
+			st.unionEE++
+		}
+		if av && !encloses(u, a, dim) {
+			t.Failf("%s: %s.Union(%s) = %s does not enclose the receiver (argument is a %s box)", api.name, a.s(dim), b.s(dim), u.s(dim), boxKindName[boxKind(b, dim)])
+			return false
+		}
+		if bv && !encloses(u, b, dim) {
+			t.Failf("%s: %s.Union(%s) = %s does not enclose the argument (receiver is a %s box)", api.name, a.s(dim), b.s(dim), u.s(dim), boxKindName[boxKind(a, dim)])
+			return false
+		}
+		if !encloses(hull, cornerHull(dim, u), dim) {
+			t.Failf("%s: %s.Union(%s) = %s reaches outside the hull %s of the operands", api.name, a.s(dim), b.s(dim), u.s(dim), hull.s(dim))
+			return false
+		}
+	}
+	return true
+}
+
+func genBoxes(g *vlib.G) {
+	alphas := [][]float64{{0, 1, 2}, {-1.5, 0, 0.5}}
+	for _, api := range boxAPIs() {
+		api := api
+		dim := api.dim
+		for ai, alpha := range alphas {
+			ai, alpha := ai, alpha
+			// --- unary operations and Contains on every literal box ---
+			g.Case(fmt.Sprintf("%s alphabet=%d unary", api.name, ai), func(t *vlib.T) {
+				st := &boxStats{}
+				// points: half steps around the alphabet's range
+				var pts []vec3
+				np := ipow(9, dim)
+				for i := 0; i < np; i++ {
+					var p vec3
+					x := i
+					for c := dim - 1; c >= 0; c-- {
+						p[c] = alpha[0] - 1 + float64(x%9)/2
+						x /= 9
+					}
+					pts = append(pts, p)
+				}
+				adds := []vec3{{1, -2, 0.5}, {0, 0, 0}, {-0.25, 4, -8}}
+				scales := []vec3{{2, -1, 0.5}, {0, 0, 0}, {1, 1, 1}, {0.5, 3, -2}}
+				for _, b := range rawBoxes(dim, alpha) {
+					if t.Failed() {
+						return
+					}
+					kind := boxKind(b, dim)
+					st.kinds[kind]++
+					var lo, hi, sz, ctr vec3
+					emp := false
+					for c := 0; c < dim; c++ {
+						lo[c], hi[c] = min(b.min[c], b.max[c]), max(b.min[c], b.max[c])
+						sz[c] = b.max[c] - b.min[c]
+						ctr[c] = (b.min[c] + b.max[c]) / 2
+						if b.min[c] >= b.max[c] {
+							emp = true
+						}
+					}
+					st.checks += 6
+					if nb := api.newBox(b.min, b.max); nb != (gbox{lo, hi}) {
+						t.Failf("%s.NewBox(%v,%v) = %s want Min %v Max %v", api.name, b.min[:dim], b.max[:dim], nb.s(dim), lo[:dim], hi[:dim])
+					}
+					if cb := api.canon(b); cb != (gbox{lo, hi}) {
+						t.Failf("%s: %s.Canon() = %s want Min %v Max %v", api.name, b.s(dim), cb.s(dim), lo[:dim], hi[:dim])
+					}
+					if got := api.size(b); got != sz {
+						t.Failf("%s: %s.Size() = %v want %v", api.name, b.s(dim), got[:dim], sz[:dim])
+					}
+					if got := api.center(b); got != ctr {
+						t.Failf("%s: %s.Center() = %v want %v", api.name, b.s(dim), got[:dim], ctr[:dim])
+					}
+					if got := api.empty(b); got != emp {
+						t.Failf("%s: %s.Empty() = %v want %v (%s box)", api.name, b.s(dim), got, emp, boxKindName[kind])
+					}
+					// Vertices: CCW in the XY plane from the minimum; r3: first at Min.Z, then at Max.Z.
+					vs := api.vertices(b)
+					var want []vec3
+					zs := []float64{0}
+					if dim == 3 {
+						zs = []float64{b.min[2], b.max[2]}
+					}
+					for _, z := range zs {
+						want = append(want, vec3{b.min[0], b.min[1], z}, vec3{b.max[0], b.min[1], z}, vec3{b.max[0], b.max[1], z}, vec3{b.min[0], b.max[1], z})
+					}
+					if len(vs) != len(want) {
+						t.Failf("%s: %s.Vertices() has %d entries want %d", api.name, b.s(dim), len(vs), len(want))
+					} else {
+						for i := range want {
+							if vs[i] != want[i] {
+								t.Failf("%s: %s.Vertices()[%d] = %v want %v", api.name, b.s(dim), i, vs[i][:dim], want[i][:dim])
+								break
+							}
+						}
+					}
+					for _, v := range adds {
+						var w gbox
+						for c := 0; c < dim; c++ {
+							w.min[c], w.max[c] = b.min[c]+v[c], b.max[c]+v[c]
+						}
+						st.checks++
+						if got := api.add(b, v); got != w {
+							t.Failf("%s: %s.Add(%v) = %s want %s", api.name, b.s(dim), v[:dim], got.s(dim), w.s(dim))
+						}
+					}
+					for _, f := range scales {
+						got := api.scale(b, f)
+						if kind == bkInverted {
+							st.scaleInverted++ // don't care
+							continue
+						}
+						var w gbox
+						for c := 0; c < dim; c++ {
+							h := max(f[c], 0) * sz[c] / 2
+							w.min[c], w.max[c] = ctr[c]-h, ctr[c]+h
+						}
+						st.checks++
+						if got != w {
+							t.Failf("%s: %s.Scale(%v) = %s want %s (same centre, size times max(factor,0))", api.name, b.s(dim), f[:dim], got.s(dim), w.s(dim))
+						}
+					}
+					for _, p := range pts {
+						in := true
+						for c := 0; c < dim; c++ {
+							if p[c] < b.min[c] || p[c] > b.max[c] {
+								in = false
+							}
+						}
+						got := api.contains(b, p)
+						st.checks++
+						switch {
+						case got && !in:
+							t.Failf("%s: %s.Contains(%v) = true for a point outside the bounds (%s box)", api.name, b.s(dim), p[:dim], boxKindName[kind])
+						case kind == bkVolume && in && !got:
+							t.Failf("%s: %s.Contains(%v) = false for a point inside the bounds", api.name, b.s(dim), p[:dim])
+						case got && kind == bkPoint:
+							st.pointContainsSelf++
+						case got && kind == bkFlat:
+							st.flatContainsInside++
+						}
+						if t.Failed() {
+							return
+						}
+					}
+				}
+				st.report(t, api.name+" unary")
+			})
+			// --- Union: every ordered pair, every kind of operand in both positions ---
+			g.Case(fmt.Sprintf("%s alphabet=%d Union pairs", api.name, ai), func(t *vlib.T) {
+				st := &boxStats{}
+				bs := rawBoxes(dim, alpha)
+				for _, a := range bs {
+					st.kinds[boxKind(a, dim)]++
+					for _, b := range bs {
+						if !checkUnion(t, api, a, b, st) {
+							return
+						}
+					}
+				}
+				st.report(t, api.name+" union pairs")
+			})
+		}
+		// --- Union chains: bounding-box accumulation from the zero Box ---
+		g.Case(fmt.Sprintf("%s Union chains", api.name), func(t *vlib.T) {
+			st := &boxStats{}
+			alpha := []float64{0, 1, 2}
+			if dim == 3 {
+				alpha = []float64{-1, 1} // 64 boxes: all four kinds
+			}
+			bs := rawBoxes(dim, alpha)
+			if dim == 3 {
+				// the zero Box and a point box as members too
+				bs = append(bs, gbox{}, gbox{vec3{1, 1, 1}, vec3{1, 1, 1}})
+			}
+			for _, x := range bs {
+				for _, y := range bs {
+					for _, z := range bs {
+						acc := gbox{}
+						members := []gbox{x, y, z}
+						for _, m := range members {
+							acc = api.union(acc, m)
+						}
+						st.checks++
+						hull := cornerHull(dim, gbox{}, x, y, z)
+						if !encloses(hull, cornerHull(dim, acc), dim) {
+							t.Failf("%s: Box{}.Union(%s).Union(%s).Union(%s) = %s reaches outside the hull %s", api.name, x.s(dim), y.s(dim), z.s(dim), acc.s(dim), hull.s(dim))
+							return
+						}
+						for _, m := range members {
+							if boxKind(m, dim) == bkVolume && !encloses(acc, m, dim) {
+								t.Failf("%s: Box{}.Union(%s).Union(%s).Union(%s) = %s does not enclose its member %s", api.name, x.s(dim), y.s(dim), z.s(dim), acc.s(dim), m.s(dim))
+								return
+							}
+						}
+					}
+				}
+			}
+			st.report(t, api.name+" union chains")
+		})
+	}
+}
